@@ -470,43 +470,91 @@ func transcribeSendFlush(f *fn) []string {
 
 func transcribeConn(f *fn) []string {
 	var out []string
-	ast.Inspect(f.decl.Body, func(n ast.Node) bool {
-		switch x := n.(type) {
-		case *ast.IfStmt:
-			c := exprStr(x.Cond)
-			if c == f.recv+".conn!=nil" && leaves(x.Body) {
-				out = append(out, ".retIfConnSet")
-				return false
-			}
-			if c == f.recv+".conn==nil" && leaves(x.Body) {
-				out = append(out, ".retIfConnNil")
-				return false
-			}
-		case *ast.CallExpr:
-			switch classify(x, f.recv) {
-			case "dial":
-				out = append(out, ".dial")
-			case "connClose":
-				out = append(out, ".connClose")
-			}
-		case *ast.AssignStmt:
-			for i, l := range x.Lhs {
-				switch sel(l) {
-				case f.recv + ".conn":
-					if i < len(x.Rhs) && exprStr(x.Rhs[i]) == "nil" {
-						out = append(out, ".assignConnNil")
-					} else {
-						out = append(out, ".assignConn")
-					}
-				case f.recv + ".wr":
-					if i < len(x.Rhs) && callKind(x.Rhs[i], f.recv) == "newWriter" {
-						out = append(out, ".assignWrNew")
+	touches := func(n ast.Node) bool { // does n assign conn / wr, dial, or close the connection?
+		hit := false
+		ast.Inspect(n, func(m ast.Node) bool {
+			switch x := m.(type) {
+			case *ast.CallExpr:
+				if k := classify(x, f.recv); k == "dial" || k == "connClose" {
+					hit = true
+				}
+			case *ast.AssignStmt:
+				for _, l := range x.Lhs {
+					if t := sel(l); t == f.recv+".conn" || t == f.recv+".wr" {
+						hit = true
 					}
 				}
 			}
+			return !hit
+		})
+		return hit
+	}
+	var walk func(list []ast.Stmt)
+	walk = func(list []ast.Stmt) {
+		for _, st := range list {
+			switch x := st.(type) {
+			case *ast.IfStmt:
+				c := exprStr(x.Cond)
+				switch {
+				case c == f.recv+".conn!=nil" && leaves(x.Body) && x.Else == nil && !touches(x.Body):
+					out = append(out, ".retIfConnSet")
+				case c == f.recv+".conn==nil" && leaves(x.Body) && x.Else == nil && !touches(x.Body):
+					out = append(out, ".retIfConnNil")
+				case c == "err!=nil" && leaves(x.Body) && x.Else == nil && !touches(x.Body):
+					// the dial failed: next server (`.dial`'s failure branch)
+				case touches(x):
+					// connection state changed under a condition the model does not have
+					out = append(out, ".unknown")
+				}
+			case *ast.RangeStmt:
+				walk(x.Body.List)
+			case *ast.ForStmt:
+				walk(x.Body.List)
+			case *ast.BlockStmt:
+				walk(x.List)
+			case *ast.AssignStmt:
+				emitted := false
+				for i, l := range x.Lhs {
+					switch sel(l) {
+					case f.recv + ".conn":
+						emitted = true
+						if i < len(x.Rhs) && exprStr(x.Rhs[i]) == "nil" {
+							out = append(out, ".assignConnNil")
+						} else {
+							out = append(out, ".assignConn")
+						}
+					case f.recv + ".wr":
+						emitted = true
+						if i < len(x.Rhs) && callKind(x.Rhs[i], f.recv) == "newWriter" {
+							out = append(out, ".assignWrNew")
+						} else {
+							out = append(out, ".unknown")
+						}
+					}
+				}
+				if !emitted {
+					switch callKind(x, f.recv) {
+					case "dial":
+						out = append(out, ".dial")
+					case "connClose":
+						out = append(out, ".connClose")
+					}
+				}
+			case *ast.ExprStmt:
+				switch callKind(x, f.recv) {
+				case "dial":
+					out = append(out, ".dial")
+				case "connClose":
+					out = append(out, ".connClose")
+				}
+			default:
+				if touches(st) {
+					out = append(out, ".unknown")
+				}
+			}
 		}
-		return true
-	})
+	}
+	walk(f.decl.Body.List)
 	return out
 }
 
